@@ -166,7 +166,8 @@ let handle kind c =
             let fw = week_files w in
             if ps <> sums_of fw then begin
               let subs = if List.length fw <= 10 then subsets fw else [] in
-              if List.exists (fun s -> s <> [] && sums_of s = ps) subs then
+              if List.exists (fun s -> s <> [] && sums_of s = ps) subs && mode_on && nth >= 3
+                 && (scen = "race3" || scen = "conc3") then
                 once "subset_report"
                   (Printf.sprintf "%s = aggregate of a strict subset of the week's %d files: %s" name (List.length fw) (show_desc d)) prop07
               else
@@ -274,6 +275,15 @@ let handle kind c =
             | Some (r', _) when r' = r -> ()
             | _ -> once "report_changed" (Printf.sprintf "step %d: %s changed after it was written" i n) prop07) !prev_local;
       List.iter (fun (n, (_, d)) -> check_report n d) loc;
+      (* C07: no report file is created for a week that had a report before the runs *)
+      List.iter (fun (n, _) ->
+          if has_suffix n ".json" && not (List.mem_assoc n !prev_local) && not (List.mem n init_local_names) then begin
+            let w = if has_prefix n "local." then String.sub n 6 (String.length n - 11)
+              else String.sub n 0 (String.length n - 5) in
+            if List.mem (w ^ ".json") init_up_names || List.mem ("local." ^ w ^ ".json") init_local_names
+               || List.mem (w ^ ".json") init_local_names then
+              once "second_report" (Printf.sprintf "step %d: %s created although week %s had a report before the runs" i n w) prop07
+          end) loc;
       (* C08 *)
       (match post, outc with
        | Some (w, b, f), Some o ->
